@@ -7,7 +7,21 @@ s = D.read_text()
 MARK = "\n<!-- GENERATED TAIL: do not edit below; edit design.d/*.md and run harness/design_merge.py -->\n"
 if MARK in s:
     s = s[:s.index(MARK)]
-out = [MARK, "\n--------------------------------------------------------------------------------\n",
+# ---- status table (0.3) from the evidence of the last clean-tree runs
+rows = ["", "### 0.3 Status table (generated from evidence/*.json, known_findings.json, seeded/)", "",
+        "| property | theorems (obligations = discharged) | cases in the last quick run | open findings | fixed findings | seeded changes kept | last run |",
+        "|---|---|---|---|---|---|---|"]
+kf0 = json.loads((V / "known_findings.json").read_text())
+for ev in sorted((V / "evidence").glob("C*.json")):
+    e = json.loads(ev.read_text())
+    pid = e["property_id"]
+    c = e["coverage"]
+    op = sorted({x["id"] for x in kf0 if x.get("property") == pid and x["status"] == "open"})
+    fx = sorted({x["id"] for x in kf0 if x.get("property") == pid and x["status"] == "fixed"})
+    sd = sorted(d.name for d in (V / "seeded").glob(pid + "-*"))
+    rows.append(f"| {pid} | {c.get('discharged')}/{c.get('obligations')} | {c.get('evaluations')} ({c.get('distinct_nontrivial')} distinct non-trivial) | {', '.join(op) or '-'} | {', '.join(fx) or '-'} | {len(sd)} | {e['tier']} {e['wall_s']} s |")
+rows.append("")
+out = [MARK] + rows + ["\n--------------------------------------------------------------------------------\n",
        "## 12. Per-property build notes (what is modelled, theorem lists, findings, mutations tried)\n",
        "One subsection per property, written by whoever built the check when it landed (sources: `design.d/*.md`).\n"]
 for p in sorted((V / "design.d").glob("*.md")):
